@@ -101,7 +101,7 @@ def cost_args(costs):
     return args
 
 
-def cli_reconcile(case, algo, policy="any", with_costs=True, via_std=False):
+def cli_reconcile(case, algo, policy="any", with_costs=True, via_std=False, stale_output=False):
     """Write the case to a temp file (or feed it on stdin when via_std, reading the
     result from stdout: the documented defaults of --input/--output), run `reconcile`,
     return (status, [output lines], printed minimum cost or None, stderr, raw output)."""
@@ -116,6 +116,11 @@ def cli_reconcile(case, algo, policy="any", with_costs=True, via_std=False):
             outp = os.path.join(tmp, "out.json")
             with open(inp, "w") as fh:
                 json.dump(data, fh)
+            if stale_output:
+                # the output path already holds something (a second run into the same file): the tool writes the
+                # solutions of THIS run, it does not add them to what was there
+                with open(outp, "w") as fh:
+                    fh.write("STALE CONTENT OF AN EARLIER RUN\n" * 3)
             argv = ["reconcile", "--input", inp, "--output", outp, "--solutions", policy] + costs + [algo]
             status, _out, err = run_cli(argv)
             raw = open(outp).read() if os.path.exists(outp) else ""
